@@ -68,7 +68,7 @@ Qed.
 
 Lemma ceq_insert : forall z x l, ceq z (insert_stable lt x l) = (if equiv lt z x then 1 else 0) + ceq z l.
 Proof.
-  intros z x l; induction l as [|y t IH]; [reflexivity|].
+  intros z x l; induction l as [|y t IH]; [cbn [insert_stable]; apply (ceq_cons lt z x)|].
   cbn [insert_stable]. destruct (lt y x).
   - rewrite !(ceq_cons lt z y), IH. lia.
   - rewrite (ceq_cons lt z x). reflexivity.
